@@ -524,12 +524,24 @@ func (pf Producer[T]) GenerateParallel(
 		var zero T
 		pipe.Processor().
 			ReadAll(func(ctx context.Context) (T, error) {
+				if err := ctx.Err(); err != nil {
+					// the group was stopped: do not
+					// start another item.
+					return zero, err
+				}
 				value, err := pf(ctx)
 				if err != nil {
 					if opts.CanContinueOnError(err) {
 						return zero, ErrIteratorSkip
 					}
 
+					// an exhausted generator (io.EOF) only ends
+					// this worker: the others may still hold
+					// values that must be delivered. Every other
+					// error that stops a worker stops the group.
+					if !errors.Is(err, io.EOF) || errors.Is(err, ErrRecoveredPanic) {
+						cancel()
+					}
 					return zero, io.EOF
 				}
 				return value, nil
